@@ -40,6 +40,35 @@ def filter_default_kept(ctx, pid="C18"):
     ctx.floor(pid, "MethodFilter default stores", n, 1, fn.site)
 
 
+def crossbar_create_provides(ctx, pid="C18"):
+    """CrossbarConnectTrans.create: every given method provides the connector's method of the same side and position."""
+    from ..stage import Relation, Return
+
+    CN = "transactron/lib/connectors.py"
+    fn = Fn(ctx.repo, CN, "CrossbarConnectTrans.create", pid)
+    n = 0
+    for ex in fn.exs:
+        rets = [r for r in ex.of(Return) if r.callid is None]
+        if not rets:
+            continue
+        n += 1
+        cct = rets[0].value
+        sides = {}
+        for r in ex.of(Relation):
+            if r.kind != "provide" or len(r.args) != 1:
+                continue
+            m = pmatch("Q_c.methods1[Q_i]", r.subject) or pmatch("Q_c.methods2[Q_i]", r.subject)
+            if m is None or m["c"] != cct:
+                continue
+            side = "1" if pmatch("Q_c.methods1[Q_i]", r.subject) else "2"
+            a = r.args[0]
+            ok = a[0] == "i" and a[2] == m["i"] and ("methods" + side) in tstr(a[1]) and not [fr for fr in r.frames if fr[0] == "py"]
+            sides[side] = sides.get(side, True) and ok
+        ctx.check(sides == {"1": True, "2": True}, f"{pid}.crossbar-create-provides", rets[0].site, "CrossbarConnectTrans.create.provide", found=str(sides),
+                  required="cct.methods1[i].provide(methods1[i]) and cct.methods2[j].provide(methods2[j]) for every i, j")
+    ctx.floor(pid, "CrossbarConnectTrans.create configurations", n, 1, fn.site)
+
+
 def product_default_combiner(ctx, pid="C18"):
     for cls in ("MethodProduct", "MethodTryProduct"):
         fn = Fn(ctx.repo, TR, f"{cls}.__init__", pid)
